@@ -695,20 +695,17 @@ def K_posing(w, cfg):
     gam = f_gamma(_arr(w, xt), T)
     ph = f_phi(_arr(w, yt), T, P)
     Kp = [pPoP[i] * gam[i] / ph[i] for i in range(n)]
-    LOG_FLOOR = math.log(1e-16)
-    # exp(log K) -> K is applied syntactically on symbolic terms; the floor value 1e-16 is recognised by its (float) logarithm
-    Kout = [1e-16 if (w.symbolic and isinstance(out[n + 1 + i], float) and out[n + 1 + i] == LOG_FLOOR) else _exp(out[n + 1 + i])
-            for i in range(n)]
+    # the floor at 1e-16 is a case split of the code on Kp < 1e-16; the contract follows the same split
+    Kout = [(1e-16 if Kp[i] < 1e-16 else Kp[i]) for i in range(n)]
     Vout = out[n]
     xout = [out[i] for i in range(n)]
     for i in range(n):
-        w.ensure(f'K[{i}] = pcf Psat gamma(x) / (phi(y) P), floored at 1e-16',
-                 w.Or(w.And(w.ge(Kp[i], 1e-16), w.eq(Kout[i], Kp[i])), w.And(w.lt(Kp[i], 1e-16), w.eq(Kout[i], 1e-16))),
-                 Kout=Kout[i], Kp=Kp[i])
+        w.ensure(f'ln K[{i}] = ln(pcf Psat gamma(x) / (phi(y) P)), K floored at 1e-16', w.eq(out[n + 1 + i], _log(Kout[i])))
         w.ensure(f'x[{i}] = z / (1 + V (K - 1)) with the new V and K', w.eq(xout[i], zs[i] / (1. + Vout * (Kout[i] - 1.))))
     if cfg['fn'] == '2n':
-        w.ensure('new V is a root of the Rachford-Rice equation posed with the new K',
-                 w.eq(w.total([zs[i] * (Kout[i] - 1.) / (1. + Vout * (Kout[i] - 1.)) for i in range(n)]), 0.))
+        w.ensure('new V is a root of the Rachford-Rice equation posed with the new K (K_1 != K_2, else there is no isolated root)',
+                 w.Implies(w.ne(Kout[0], Kout[1]),
+                           w.eq(w.total([zs[i] * (Kout[i] - 1.) / (1. + Vout * (Kout[i] - 1.)) for i in range(n)]), 0.)))
     else:
         w.ensure('the Rachford-Rice solver is called exactly once', len(rr_calls) == 1)
         if len(rr_calls) == 1:
@@ -728,3 +725,79 @@ def K_posing(w, cfg):
     w.ensure('frame: the previous iterate, z and pcf*Psat/P are not written to',
              w.And(w.all_eq(list(xVlogK), x0), w.all_eq(list(z), zs), w.all_eq(list(pp), pPoP)))
     w.canary('canary: K is left unchanged by the step', w.all_eq(Kout, Kin))
+
+
+# =========================================================================== S: set_PH / set_PS reproduce the specified H / S
+
+def corr_configs(tier):
+    fam = [
+        ('W', {'W': '++'}, 0, 'interior'),
+        ('WE', {'W': '0+', 'E': '+0'}, 0, 'interior'),
+        ('WE', {'W': '0+', 'E': '+0'}, 1, 'interior'),
+        ('WEN', {'W': '0+', 'E': '0+', 'N': '+0'}, 0, 'interior'),
+        ('WEX', {'W': '+0', 'E': '0+', 'X': '0+'}, 0, 'interior'),
+        ('NX', {'N': '+0', 'X': '0+'}, 0, 'interior'),
+    ]
+    if tier == 'thorough':
+        fam += [('WE', {'W': '0+', 'E': '+0'}, 1, 'box'), ('WEM', {'W': '0+', 'E': '+0', 'M': '++'}, 1, 'interior'),
+                ('WENX', {'W': '0+', 'E': '+0', 'N': '+0', 'X': '0+'}, 1, 'interior'), ('WE', {'W': '0+', 'E': '+0'}, 2, 'interior')]
+    return [{'name': f'{keys}/{_dist_name(d, keys)}/k={k}/v={v}', 'pkg': keys, 'dist': d, 'k': k, 'v': v} for keys, d, k, v in fam]
+
+
+def corr_body(var):
+    def body(w, cfg):
+        """
+        P and H (S) specified.  ensures: the enthalpy (entropy) of the resulting stream, i.e. mixture.xH (xS) of the final
+        flows at the final T and the specified P, equals the specification; the flows of every volatile chemical stay in
+        range and add up to what they were.  Pure-component H/S models are uninterpreted functions of (T, P) combined by the
+        REAL mixing rule (linear in the flows); the temperature solvers obey A-root.
+        """
+        from thermosteam.mixture import ideal_mixture_model as imm
+        W.reset_caches()
+        env = Env(w, cfg)
+        keys = cfg['pkg']
+        try:
+            install_vle_stubs(env, solve_v='contract', interior_v=cfg['v'] == 'interior')
+            IDs = tuple(chem(k).ID for k in keys)
+            th = W.stub_thermo(w, IDs)
+            if var == 'S':     # A-linear-S: the correction step treats S as linear in the flows (no entropy of mixing)
+                th.mixture._S = imm.IdealTPMixtureModel(th.mixture._S.models, 'S')
+            T0 = w.real('T0', lo=0., lo_strict=True)
+            P0 = w.real('P0', lo=0., lo_strict=True)
+            s, before = multistream(w, 'f', th, cfg['dist'], keys, T=T0, P=P0)
+            P = w.real('spec.P', lo=0., lo_strict=True)
+            X = w.real(f'spec.{var}')
+            tot = totals(before, IDs)
+            try:
+                s.vle(P=P, **{var: X})
+            except NOT_NORMAL as e:
+                w.note(outcome=type(e).__name__)
+                return
+            mix = th.mixture
+            got = (mix.xH if var == 'H' else mix.xS)(s._imol, s.T, s.P)
+            w.ensure(f'{var} of the resulting stream = specified {var}', w.eq(got, X))
+            w.ensure('P after the flash = specified P', w.eq(s.P, P))
+            now = flows_now(s)
+            for ID in IDs:
+                w.ensure(f'flows of {ID} stay in range and add up to the feed',
+                         w.And(w.ge(now['g', ID], 0.), w.ge(now['l', ID], 0.), w.eq(now['g', ID] + now['l', ID], tot[ID])))
+            w.canary(f'canary: T after the flash = T before', w.eq(s.T, T0))
+            w.note(calls=dict(env.calls), T=s.T, roots=[k for k, _ in mix.roots])
+        finally:
+            env.restore()
+    body.__name__ = f'P{var}_correction'
+    return body
+
+
+_A_CORR = ['A-bubble/dew: solve_Ty / solve_Tx return T > 0 and a composition >= 0 summing to 1',
+           'A-iter: flx.IQ_interpolation only evaluates its callback (k times, arbitrary positive arguments)',
+           'A-solve_v: VLE._solve_v returns 0 <= v <= mol_vle and sets _v, _T (its contract, discharged in C03/solve_v_clip)',
+           'A-models: pure-component H, S, Cn are uninterpreted deterministic functions of (T, P); the mixing rule is the real one',
+           'A-root: xsolve_T_at_HP / xsolve_T_at_SP return T* with xH(T*) = H (xS(T*) = S)']
+group('C04/PH_correction', configs=corr_configs, l0=True,
+      functions=[_VLE + f for f in ('__call__', 'set_PH', '_set_PH_chemical', '_H_hat_err_at_T', '_setup')] + ['thermosteam.mixture.mixture:Mixture.xH'],
+      assumptions=_A_CORR)(corr_body('H'))
+group('C04/PS_correction', configs=corr_configs, l0=True,
+      functions=[_VLE + f for f in ('__call__', 'set_PS', '_set_PS_chemical', '_S_hat_err_at_T', '_setup')] + ['thermosteam.mixture.mixture:Mixture.xS'],
+      assumptions=_A_CORR + ['A-linear-S: in the correction step the entropy model is linear in the flows (the entropy of mixing of the real '
+                             'IdealEntropyModel is covered by the bounded group C04/B_HS only)'])(corr_body('S'))
